@@ -10,10 +10,10 @@
     Python objects are records; object identity is an id ([s_id], [c_id]) given when
     the object enters the profile; the attribute database maps a handle to a REFERENCE
     ([ref]) that is resolved against the current objects when it is observed, as a
-    Python dict of object references is.  The dict is kept as an association list
-    sorted by key (a canonical form of the map: iteration order of the dict is not
-    modelled, observables are compared sorted by handle). *)
-From Coq Require Import List NArith Arith Bool.
+    Python dict of object references is.  The dict is an association list in INSERTION
+    order with Python's semantics (assignment to an existing key keeps its position, a new
+    key goes to the end, deletion removes): iteration order is modelled. *)
+From Coq Require Import List NArith Arith Bool Permutation.
 From Whad Require Import Lib.Bytes.
 Import ListNotations.
 Open Scope N_scope.
@@ -215,12 +215,11 @@ Inductive ref :=
 
 Section DB.
   Context {V : Type}.
+  (** [d[k] = v] *)
   Fixpoint db_set (k : N) (v : V) (l : list (N * V)) : list (N * V) :=
     match l with
     | [] => [(k, v)]
-    | (k', v') :: r => if k <? k' then (k, v) :: l
-                       else if k =? k' then (k, v) :: r
-                       else (k', v') :: db_set k v r
+    | (k', v') :: r => if k =? k' then (k, v) :: r else (k', v') :: db_set k v r
     end.
   Definition db_del (k : N) (l : list (N * V)) : list (N * V) :=
     filter (fun e => negb (fst e =? k)) l.
@@ -428,14 +427,20 @@ Definition attr_cls (a : attr) : N :=
 (** find_object_by_handle: [None] = IndexError *)
 Definition find_by_handle (p : profile) (h : N) : option attr :=
   option_map (resolve (p_svcs p)) (db_get h (p_db p)).
-(** find_objects_by_range *)
+(** [handles.sort()] *)
+Fixpoint insertN (x : N) (l : list N) : list N :=
+  match l with [] => [x] | y :: r => if x <=? y then x :: l else y :: insertN x r end.
+Fixpoint sortN (l : list N) : list N := match l with [] => [] | x :: r => insertN x (sortN r) end.
+
+(** find_objects_by_range: the handles of the dict in range, sorted, each looked up again *)
 Definition find_by_range (p : profile) (a b : N) : list attr :=
-  map snd (filter (fun e => (a <=? fst e) && (fst e <=? b)) (dump p)).
-(** attr_by_type_uuid: handles of the attributes found (in key order) *)
+  flat_map (fun h => match find_by_handle p h with Some x => [x] | None => [] end)
+           (sortN (filter (fun k => (a <=? k) && (k <=? b)) (map fst (p_db p)))).
+(** attr_by_type_uuid: handles of the attributes yielded, in dict order *)
 Definition find_by_type (p : profile) (u : uuid) (a b : N) : list N :=
   map (fun e => attr_handle (snd e))
       (filter (fun e => uuid_eqb (attr_type (snd e)) u && (a <=? attr_handle (snd e)) && (attr_handle (snd e) <=? b)) (dump p)).
-(** Profile.service(uuid): handles of every service attribute with that UUID (the code returns the first in dict order) *)
+(** Profile.service(uuid): handles of every service attribute with that UUID in dict order (the code returns the first) *)
 Definition find_services (p : profile) (u : uuid) : list N :=
   flat_map (fun e => match snd e with ASvc h _ u' _ => if uuid_eqb u' u then [h] else [] | _ => [] end) (dump p).
 (** Profile.char(uuid) *)
@@ -501,6 +506,18 @@ Definition jchar_in_domain (jc : jchar) : bool :=
 Definition jsvc_in_domain (js : jsvc) : bool :=
   negb (js_start js =? 0) && forallb jchar_in_domain (js_chars js).
 
+(** Registration order of the from_json loop, before [add_service]: for every characteristic
+    its descriptors, then the declaration and the value; the service attribute last. *)
+Definition imp_entries (s : svc) : list (N * ref) :=
+  flat_map (fun c => desc_entries (s_id s) (c_id c) 0 (c_descs c)
+                     ++ [(c_handle c, RChar (s_id s) (c_id c)); (c_vhandle c, RVal (s_id s) (c_id c))])
+           (s_chars s)
+  ++ [(s_handle s, RSvc (s_id s))].
+
+Definition pre_register (p : profile) (s0 : svc) : profile :=
+  mkP (p_start p) (p_next p) (p_fresh p) (p_svcs p)
+      (db_set_all (imp_entries (number_svc (p_fresh p) s0)) (p_db p)) (p_cmap p).
+
 Definition import_step (acc : outcome) (js : jsvc) : outcome :=
   match acc with
   | Raised e => Raised e
@@ -509,8 +526,9 @@ Definition import_step (acc : outcome) (js : jsvc) : outcome :=
       let sec := uuid_eqb (js_type js) (u16 0x2801) in
       if negb (prim || sec) then Done p
       else
-        let s0 := mkS 0 prim (js_uuid js) (js_start js) (js_end js) [] [] in
-        Done (add_service p (fold_left svc_add_char (map import_chr (js_chars js)) s0))
+        let s0 := fold_left svc_add_char (map import_chr (js_chars js))
+                            (mkS 0 prim (js_uuid js) (js_start js) (js_end js) [] []) in
+        Done (add_service (pre_register p s0) s0)
   end.
 
 Definition import (js : list jsvc) : outcome :=
@@ -565,7 +583,7 @@ Definition exn_code (e : exn) : N :=
              | InvalidHandleValueException => 5 | OutOfModel => 99 end.
 
 (** Light observation after the build and after every operation:
-    (key, class code, obj.handle) of every DB entry, the next free handle when the
+    (key, class code, obj.handle) of every DB entry IN DICT ITERATION ORDER, the next free handle when the
     harness could read it, the (handle, end handle) of the services in handle order. *)
 Definition lightobs := (list (N * N * N) * option N * list (N * N))%type.
 
@@ -611,7 +629,7 @@ Record lookobs := mkLK {
   lk_val2chr : list lres;                       (* for h = 0, 1, 2, ... *)
   lk_chr2svc : list lres;                       (* for h = 0, 1, 2, ... *)
   lk_ranges : list (N * N * list (N * N));      (* a, b, [class code, obj.handle] *)
-  lk_by_type : list (uuid * N * N * list N);    (* type uuid, start, end, sorted handles *)
+  lk_by_type : list (uuid * N * N * list N);    (* type uuid, start, end, handles in the order yielded *)
   lk_svc : list (uuid * option N);              (* service(uuid) -> handle *)
   lk_chr : list (uuid * option N)               (* char(uuid) -> handle *)
 }.
@@ -631,13 +649,17 @@ Definition check_lookups (p : profile) (o : lookobs) : bool :=
   && forallb (fun q => let '(u, a, b, r) := q in list_eqb N.eqb (find_by_type p u a b) r) (lk_by_type o)
   && forallb (fun q => match snd q, find_services p (fst q) with
                        | None, [] => true
-                       | Some h, [h'] => h =? h'
-                       | Some h, l => mem_N h l       (* several services with one UUID: any of them *)
-                       | None, _ => false end) (lk_svc o)
+                       | Some h, h' :: _ => h =? h'      (* the first one in dict order *)
+                       | _, _ => false end) (lk_svc o)
   && forallb (fun q => match snd q, find_chars p (fst q) with
                        | None, [] => true
-                       | Some h, l => mem_N h l
-                       | None, _ => false end) (lk_chr o).
+                       | Some h, h' :: _ => h =? h'
+                       | _, _ => false end) (lk_chr o).
+
+Definition db_order_eqb (p : profile) (db : list (N * N * N)) : bool :=
+  list_eqb (fun (a : N * attr) (b : N * N * N) =>
+              let '(k, c, h) := b in (fst a =? k) && (attr_cls (snd a) =? c) && (attr_handle (snd a) =? h))
+           (dump p) db.
 
 (** A whole case: definitions, operations, and everything the implementation showed. *)
 Record ccase := mkCase {
@@ -645,7 +667,8 @@ Record ccase := mkCase {
   k_build : lightobs; k_steps : list lightobs;
   k_final : list (N * attr); k_look : lookobs;
   k_export : list jsvc;
-  k_reimport : option (list jsvc);      (* the export of the re-imported profile *)
+  (* the re-imported profile: its export, its attribute dict in iteration order, its lookups *)
+  k_reimport : option (list jsvc * list (N * N * N) * lookobs);
   k_reimport_exc : N                    (* exception code when the import raised, else 0 *)
 }.
 
@@ -659,7 +682,8 @@ Definition check_case (c : ccase) : bool :=
          && check_lookups p (k_look c)
          && list_eqb jsvc_eqb (export p) (k_export c)
          && match import (export p), k_reimport c with
-            | Done q, Some j => list_eqb jsvc_eqb (export q) j
+            | Done q, Some (j, db, lk) =>
+                list_eqb jsvc_eqb (export q) j && db_order_eqb q db && check_lookups q lk
             | Raised e, None => exn_code e =? k_reimport_exc c
             | _, _ => false
             end
@@ -729,6 +753,21 @@ Definition layout (gaps : bool) (p : profile) : Prop :=
   /\ dump p = flat_map svc_dump (p_svcs p)
   /\ svcs_spec gaps (p_start p) (p_svcs p) (p_next p)
   /\ cmap_view p = flat_map (fun s => map (fun c => (c_handle c, Some (s_handle s))) (s_chars s)) (p_svcs p)
+  /\ NoDup (map fst (p_cmap p)).
+
+(** strictly ascending *)
+Fixpoint ascending (l : list N) : Prop :=
+  match l with [] => True | x :: r => Forall (fun y => x < y) r /\ ascending r end.
+
+(** The attribute dict holds exactly the attributes of the listed services, each under its
+    own handle, in WHATEVER registration order (class-built profiles register in ascending
+    order, the JSON import registers descriptors, declaration, value, ..., service last);
+    the handles of the layout are strictly ascending; same for the characteristic table. *)
+Definition db_agrees (p : profile) : Prop :=
+  Permutation (dump p) (flat_map svc_dump (p_svcs p))
+  /\ ascending (map fst (flat_map svc_dump (p_svcs p)))
+  /\ Permutation (cmap_view p)
+                 (flat_map (fun s => map (fun c => (c_handle c, Some (s_handle s))) (s_chars s)) (p_svcs p))
   /\ NoDup (map fst (p_cmap p)).
 
 Definition is_remove (o : op) : bool := match o with OpRemove _ => true | _ => false end.
